@@ -11,7 +11,7 @@ class _RL(dict):
 UNIT_RLIMIT = _RL({"div_small": 80, "mul_redc": 80})      # unit -> --rlimit (Verus default is 10; 5x head-room over the measured maximum)
 UNIT_TIMEOUT = {"knuth": 1500, "addmul": 900, "mul_redc": 1200}     # unit -> seconds
 UNIT_EXPECT = {       # unit -> minimum number of verified functions on the unchanged tree (vacuity guard)
-    "core": 31, "add": 29, "kernels": 79, "addmul": 71, "addmul_n": 73, "mul": 51, "divd": 45, "div_small": 235, "knuth": 145, "mul_redc": 126, "basics": 22, "pow": 38, "divw": 54, "modular": 70, "spigot": 44, "gcd": 24, "forward": 57, "invring": 47, "bitlen": 81, "shifts": 131, "recip_table": 2, "gcdext": 67, "gcdw": 36, "bits": 78, "conv": 44, "lehmer": 38, "jebelean": 92, "logs": 27, "forward_shift": 81, "fmt_consts": 5, "rotate": 27, "popcount": 29, "conv_slice": 54, "conv_prim": 53,
+    "core": 31, "add": 29, "kernels": 79, "addmul": 71, "addmul_n": 73, "mul": 51, "divd": 45, "div_small": 235, "knuth": 145, "mul_redc": 126, "basics": 22, "pow": 38, "divw": 54, "modular": 70, "spigot": 44, "gcd": 24, "forward": 57, "invring": 47, "bitlen": 81, "shifts": 131, "recip_table": 2, "gcdext": 67, "gcdw": 36, "bits": 78, "conv": 44, "lehmer": 38, "jebelean": 92, "logs": 27, "forward_shift": 81, "fmt_consts": 5, "rotate": 27, "popcount": 29, "conv_slice": 54, "conv_prim": 53, "absdiff": 15,
 }
 
 COMMON_TRUST = [
@@ -64,12 +64,12 @@ NOT_APPLICABLE = {}
 PROPS = {
     "C01": dict(
         level="proof",
-        level_text="Verus discharges value/flag/canonicity contracts of overflowing_add/sub/neg and all checked/saturating/wrapping wrappers for every BITS and LIMBS "
+        level_text="Verus discharges value/flag/canonicity contracts of overflowing_add/sub/neg, all checked/saturating/wrapping wrappers, abs_diff and the 12 + / - operator impls for every BITS and LIMBS "
                    "on the functions re-extracted from /repo each run; Kani proves the same contract for every entry point (methods, all operator shapes, Sum) per width",
         level_note="assumed: u64::overflowing_add/sub specifications (cross-checked full-domain by Kani), the extraction normalisations, the tools; "
-                   "Sum/iterator fold only bounded (<= 3 elements); operator impls are checked per width by Kani, not by Verus",
+                   "Sum/iterator fold only bounded (<= 3 elements); abs_diff uses the assumed contract of `<` on Uint (lib/uint_ops.rs: agrees with the value; cmp is proved in unit kernels)",
         technique="deductive contracts (Verus, all widths) + Kani per-width contract harnesses with replayed counterexamples",
-        units=["core", "add", "forward"],
+        units=["core", "add", "forward", "absdiff"],
         kani=dict(
             features=None,
             quick=["c01::c01_arith_" + w for w in ["w0", "w1", "w60", "w64", "w65", "w128"]] + ["c01::c01_sum_w65"] + hs("core_specs", r"u64_"),
